@@ -117,9 +117,75 @@ def worker(c):
     return P.result()
 
 
-def _summary(out):
-    m = re.search(r"SUMMARY (.*)", out)
+def _summary(out, tag="SUMMARY"):
+    m = re.search(tag + r" (.*)", out)
     return dict(kv.split("=") for kv in m.group(1).split()) if m else None
+
+
+PGS_RACE = "data-race:dense-PGS-island-task-reads-global-efc_force-in-residual"
+
+
+def _tsan_accesses(text):
+    """[(is_write, thread, [function names of the stack])] for the racing accesses of a ThreadSanitizer data-race report"""
+    acc = []
+    for block in re.split(r"\n\s*\n", text):
+        lines = block.strip().splitlines()
+        hm = None
+        for k, ln in enumerate(lines):
+            hm = re.match(r"\s*(?:Previous )?(?:atomic )?(read|write) of size \d+ at \S+ by (.+?):", ln, re.I)
+            if hm:
+                lines = lines[k + 1:]
+                break
+        if not hm:
+            continue
+        fns = []
+        for ln in lines:
+            fm = re.match(r"\s*#\d+ (?:0x[0-9a-f]+ in )?(\S+)", ln)
+            if fm:
+                fns.append(re.sub(r"\(.*", "", fm.group(1)))
+        acc.append((hm.group(1).lower() == "write", hm.group(2), fns))
+    return acc
+
+
+def classify_tsan(kind, text, cfg):
+    """mechanism key for the one known race, or None (=> the report keeps its generic raw-frame signature).
+
+    Known mechanism (audit B1): with the PGS solver, islands and a thread pool, mj_fwdConstraint dispatches one solveIslandTask per
+    island; with a DENSE Jacobian residual() computes mju_dot(efc_AR row, d->efc_force, d->nefc) over the whole (global) efc_force
+    while the other islands' tasks write their own entries of it. The key is used only if ALL of the following are confirmed:
+    (a) the engine's solver is PGS, (b) the dense path is active (mj_isSparse(m) == 0 as printed by the harness before stepping),
+    (c) islands are enabled and a pool with >= 1 worker is attached, and both racing accesses are inside solveIslandTask ->
+    mj_solPGS_island running on different threads, (d) one access is a READ whose stack is mju_dot <- residual <- solPGS and the
+    other is a WRITE issued from solPGS (directly or via a helper it calls, e.g. mju_copy in solveQCQP)."""
+    if "data race" not in kind or not cfg:
+        return None
+    if not (cfg.get("solver_pgs") == "1" and cfg.get("sparse") == "0" and cfg.get("islands_enabled") == "1" and int(cfg.get("nthread", 0)) >= 1):
+        return None
+    acc = _tsan_accesses(text)
+    if len(acc) != 2 or acc[0][1] == acc[1][1]:
+        return None
+    reads = [a for a in acc if not a[0]]
+    writes = [a for a in acc if a[0]]
+    if len(reads) != 1 or len(writes) != 1:
+        return None
+
+    def island_task(fns):
+        # ... solPGS <- mj_solPGS_island <- solveIslandTask (solPGS may be inlined into mj_solPGS_island by the optimiser)
+        if "solveIslandTask" not in fns or "mj_solPGS_island" not in fns:
+            return False
+        return fns.index("mj_solPGS_island") < fns.index("solveIslandTask")
+
+    rf, wf = reads[0][2], writes[0][2]
+    if not (island_task(rf) and island_task(wf)):
+        return None
+    # read side: mju_dot called from residual, below the island PGS solver
+    if not (len(rf) >= 2 and rf[0] == "mju_dot" and rf[1] == "residual" and rf.index("residual") < rf.index("mj_solPGS_island")):
+        return None
+    # write side: issued by the PGS sweep itself (solPGS / its QCQP helper), never from residual / mju_dot
+    k = wf.index("mj_solPGS_island")
+    if "residual" in wf or "mju_dot" in wf or not all(f in ("solPGS", "solveQCQP", "mju_copy", "mju_zero", "memcpy", "__tsan_memcpy", "mju_scl", "mju_addTo", "mju_addToScl", "mju_subFrom") for f in wf[:k]):
+        return None
+    return PGS_RACE
 
 
 def run(ctx):
@@ -181,8 +247,15 @@ def run(ctx):
             if res["timed_out"]:
                 ctx.inconclusive("watchdog fired: %s" % detail)
                 continue
+            cfg = _summary(res["out"], "CONFIG")
             for k, sig, text in res["reports"]:
-                ctx.violation(("data-race:" if "Thread" in k else "sanitizer:") + sig, dict(detail, report=text, xml=open(args[0]).read()[:20000]))
+                known = classify_tsan(k, text, cfg) if fl == "tsan" else None
+                if known:
+                    ctx.count("tsan_reports_classified:dense-PGS-island-residual")
+                elif "Thread" in k:
+                    ctx.count("tsan_reports_generic_signature")
+                ctx.violation(known or (("data-race:" if "Thread" in k else "sanitizer:") + sig),
+                              dict(detail, config=cfg, report=text, xml=open(args[0]).read()[:20000]))
             s = _summary(res["out"])
             if s is None:
                 if "LOADFAIL" in res["out"] or "VF-UNSCOPED-ERROR" in res["err"]:
